@@ -213,7 +213,17 @@ def holdsStep (n : Nat) (all : List Op) (s : Ref) (before after : Addr → Word)
     cb.isNone && (List.range n).all (fun x => after x == (if x = a then { before x with outlier := on } else before x))
   | .result k a r =>
     match s.live k a with
-    | none => cb.isNone && (List.range n).all (fun x => after x == before x)
+    | none =>
+      -- the reference knows no session checker here (address not listed, or checking stopped).  Whether an implementation
+      -- checks such a host at all is not the property's business: nothing delivered ⇒ nothing changes; something delivered
+      -- ⇒ it must at least be a legal single-result effect
+      match cb with
+      | none => (List.range n).all (fun x => after x == before x)
+      | some o =>
+        let b := (before a).active
+        let f := (after a).active
+        (List.range n).all (fun x => after x == (if x = a then { before x with active := f } else before x)) &&
+        o == ⟨b != f, r.ok, f⟩ && (!(b && !f) || r.ok) && (!(!b && f) || r.bad)
     | some hist =>
       let b := (before a).active
       let f := (after a).active
